@@ -183,21 +183,27 @@ ADDENDA3 = {
 }
 # rules added in the second fresh round f6 (DESIGN.md 11.3)
 ADDENDA4 = {
-    'C02': ' Also (C02-8): the outcome is taken apart only after the exception test, the batch deadline, and what is wrapped is never already a wrapper (C04-2).',
+    'C01': ' Also: the pool a parmapper creates has `concurrency` workers whatever the input (C01-10).',
+    'C02': ' Also (C02-8): the outcome is taken apart only after the exception test, the batch deadline, what is wrapped is never already a wrapper (C04-2), and an upstream failure never becomes an element of a batch (C04-3).',
     'C03': ' Also: the "no initializer" state of accumulate is a private sentinel tested by identity (C03-11); the hand-off queue of every fifo pair is bounded by the look-ahead asked for, pair freshness and a single hand-off (C03-9).',
     'C04': ' Also: the argument of RemoteException in a service loop is never a value that can already be a RemoteException (C04-2); every consumed message returns its slot (C04-12); the C15 obligations on type, args and traceback text (C04-13).',
+    'C05': ' Also: leaving `with executor:` waits for the calls still running — the pool classes keep the standard exit (C05-11).',
+    'C06': ' Also: the thread that feeds the first process stage survives an input whose pickling fails, whatever the error class (C06-15).',
     'C07': ' Also: the deadline stored with a request is anchored at its arrival, before the admission wait (C07-8).',
-    'C09': ' Also (C09-10): what is wrapped is never already a wrapper.',
+    'C08': ' Also (C08-3): the pool size is `concurrency` whatever the input, the pool exit waits, and the async-worker parmappers hand 2*concurrency to the fifo functions.',
+    'C09': ' Also: what is wrapped is never already a wrapper (C09-10); a message is never put on the batch buffer as dequeued (C09-1); a batch reaches call() as a list (C09-11).',
     'C10': ' Also: every release of the source lock is reached only with the lock held by this activation (C10-1); an explicit StopIteration is raised only after the fork\'s own state showed that it has delivered elements (C10-10).',
     'C11': ' Also: every consumed message returns its slot (C11-8); onboarding, containment and wrapping of the service loops (C11-11).',
+    'C12': ' Also: the override of _bootstrap consults the code the standard bootstrap returned (C12-13).',
     'C13': ' Also: the bookkeeping of Server.create is one region of the server mutex (C13-4); no Server method releases or unlinks the resources of a hosted value (C13-5).',
     'C14': ' Also: after the #ERROR message was built nothing else is decided for the call (C14-14).',
     'C15': ' Also: the traceback formatted is the one handed over or the exception\'s own on the branch that found one (C15-3).',
     'C17': ' Also: no wait on the data queue while the token lock is held (C17-9).',
+    'C20': ' Also: nothing that can log runs in the child after the forwarding handler was removed (C20-7).',
 }
 COMMON_NOTE = COMMON_NOTE + (
     ' Before the rules run, the syntax tree (never the files) is normalised: while/next loops are read as for loops, functions the rules look up by name that were renamed consistently are mapped back through body fingerprints (anchors.json), '
-    'calls of helpers that do not exist in the confirmed tree are read in place when that is exact, assignment expressions are desugared, annotated assignments, import aliases and written-out increments are read as their plain forms, and locals / temporaries / module constants that the confirmed tree does not have are read as what they stand for; every name mapping is printed and recorded in the evidence notes.'
+    'calls of helpers that do not exist in the confirmed tree are read in place when that is exact, assignment expressions are desugared, annotated assignments, import aliases and written-out increments are read as their plain forms, locals / temporaries / module constants that the confirmed tree does not have are read as what they stand for, and locals, private attributes and classes that were renamed consistently are read under their recorded names; every name mapping is printed and recorded in the evidence notes.'
 )
 
 
